@@ -253,6 +253,9 @@ class Monitor:
             fi = self.repo.functions.get(q)
             if fi is None or "#" in q:
                 continue
+            if q == "BaseObject.__getitem__":
+                continue        # attribute lookup through the class (properties, class attributes) is an uninterpreted function of
+                                # the contract: neither its outcome conditions nor its result can be judged at run time
             if q.startswith(("singleton.", "TrueSingleton.", "_SemiSingleton.")):
                 continue        # registries keyed by argument tuples: compared with a dictionary reference model by the explorer
             if q.startswith(("breadthfirst.", "depthfirst.")) and not q.endswith("_df_preflight_checks"):
